@@ -116,30 +116,30 @@ func mRoundTrip(k int, b []byte) {
 	}
 }
 
-//verif:props=C03,C09 bounds=VScalars2;all-byte-strings<=3(quick)/5(thorough) maxsteps=8000000
+//verif:props=C03,C09 bounds=VScalars2;all-byte-strings<=3(quick)/4(thorough) maxsteps=8000000
 func H_M2_scalars2() {
 	N := 3
 	if nd.Thorough() {
-		N = 5
+		N = 4
 	}
 	mRoundTrip(0, nd.Bytes(N))
 }
 
-//verif:props=C03,C13 bounds=VScalars3;all-byte-strings<=3(quick)/5(thorough) maxsteps=8000000
+//verif:props=C03,C13 bounds=VScalars3;all-byte-strings<=3(quick)/4(thorough) maxsteps=8000000
 func H_M2_scalars3() {
 	N := 3
 	if nd.Thorough() {
-		N = 5
+		N = 4
 	}
 	b := nd.Bytes(N)
 	mRoundTrip(1, b)
 }
 
-//verif:props=C03 bounds=VRepeats;all-byte-strings<=3(quick)/5(thorough) maxsteps=8000000
+//verif:props=C03 bounds=VRepeats;all-byte-strings<=3(quick)/4(thorough) maxsteps=8000000
 func H_M2_repeats() {
 	N := 3
 	if nd.Thorough() {
-		N = 5
+		N = 4
 	}
 	mRoundTrip(2, nd.Bytes(N))
 }
